@@ -101,8 +101,22 @@ def impl_file(tmp, pem, opts, header=None, footer=None):
         if txt is not None:
             o[nm] = os.path.join(tmp, nm + ".txt")
             open(o[nm], "w", encoding="utf-8").write(txt)
+    import zlib
+    if zlib.crc32(repr(sorted(opts.items())).encode() + pem[:64]) % 3 == 0:
+        # one converter object used the way a caller with a preview uses it: contents, file, contents again
+        conv = _conv().KeyConverter(input_file=p, output_file=out, **o)
+        first = conv.prepare_file_contents()
+        conv.generate_c_file()
+        text = open(out, encoding="utf-8").read()
+        if not (first == text == conv.prepare_file_contents()):
+            raise SecondRendering("one KeyConverter object renders different contents the second time")
+        return text
     _conv().main(input_file=p, output_file=out, **o)
     return open(out, encoding="utf-8").read()
+
+
+class SecondRendering(Exception):
+    pass
 
 
 def cli(args, cwd):
